@@ -94,13 +94,13 @@ PROPS["C06"] = {
     "design_ref": "DESIGN.md section 5, C06",
 }
 PROPS["C05"] = {
-    "units": {"verus": ["c05_biguint_bounds"], "kani": ["c05_chunk_weights"]},
+    "units": {"verus": ["c05_biguint_bounds"], "kani": ["c05_chunk_weights", "c05_mod_exp", "c05_field_mul"]},
     "scope": "one bookkeeping kernel of the BigUint gadget: the size-bound arithmetic that decides when lazily-normalised limbs must be renormalised",
     "not_decided": ["the CRT identity and get_identity_auxiliary_bounds of the foreign-field chip (BigInt + closures: not ingestible without rewriting, which would be a model)",
                     "every foreign-field / BigUint gate, range check, quotient and carry constraint", "equality / public-input exposure of emulated elements"],
     "trusted_base": [],
     "assumptions": ["std::cmp::max returns the larger argument (assume_specification; vstd has none)"],
-    "claim": "Proof for one kernel only (thin by admission): bound_of_addition returns, for all inputs, a true upper bound on the bit size of a sum and the smallest such bound, without u32 overflow. A `max` without the `+ 1` keeps every honest-witness test green and makes the lazy normalisation unsound; that is what this contract pins down. Added: the weights with which FieldChip::assigned_from_le_bytes / assigned_from_le_bits recombine chunks (chunk length, per-chunk exponent, per-byte / per-bit weight) are proved, over the full u32 domain of LOG2_BASE, to be those of the little-endian value (sub-expression slices; Kani). The CRT identity, all gates, range checks and quotient/carry handling of the foreign-field and BigUint gadgets are NOT decided.",
+    "claim": "Proof for one kernel only (thin by admission): bound_of_addition returns, for all inputs, a true upper bound on the bit size of a sum and the smallest such bound, without u32 overflow. A `max` without the `+ 1` keeps every honest-witness test green and makes the lazy normalisation unsound; that is what this contract pins down. Added: the weights with which FieldChip::assigned_from_le_bytes / assigned_from_le_bits recombine chunks (chunk length, per-chunk exponent, per-byte / per-bit weight) are proved, over the full u32 domain of LOG2_BASE, to be those of the little-endian value (sub-expression slices; Kani); the square-and-multiply schedule of BigUintGadget::mod_exp returns x^n AND reduced for every n (body slice over an abstract domain; callee contracts of mod_mul / div_rem assumed); FieldChip::mul returns k*x*y on every branch, including the shortcuts for the cached constants 0 and 1 (body slice over an abstract domain). The CRT identity, all gates, range checks and quotient/carry handling of the foreign-field and BigUint gadgets are NOT decided.",
     "level_note": "Verus/Z3 on the function extracted verbatim; one assumed specification (std::cmp::max); Kani on sub-expression slices (loop-free, full domain). Trusted: Verus+Z3, the extraction scanner.",
     "technique": "Verus contract (requires/ensures over pow2 with soundness and minimality lemmas) on the extracted function",
     "design_ref": "DESIGN.md section 5, C05",
@@ -122,13 +122,13 @@ PROPS["C01"] = {
     "design_ref": "DESIGN.md section 9.4 (fix 15) and 9.2",
 }
 PROPS["C18"] = {
-    "units": {"kani": ["c16_zkir_arity", "c16_zkir_into_bytes"], "polyvc": ["c16_zkir_routing"]},
+    "units": {"kani": ["c16_zkir_arity", "c16_zkir_into_bytes", "c05_mod_exp"], "polyvc": ["c16_zkir_routing"]},
     "scope": "the 'rejected with an error value rather than a panic' clause only, for the parts of IR loading and compilation that are within reach: arity validation (and that it is what both parsers index by), the length arithmetic of IntoBytes, the zero-modulus guard of ModExp",
     "not_decided": ["agreement of off-circuit evaluation and the compiled circuit (the core of the property): every operation has separate off-circuit and in-circuit code that emits constraints through the standard library; no contract language for emitted constraints is within reach",
                     "JSON / binary round trips (serde, bincode)", "type checking of operands, name resolution, IR compile panics that need whole-program reasoning (Jubjub constants without the jubjub chip, IntoBytes allocation from an unchecked length)"],
     "trusted_base": [],
     "assumptions": [],
-    "claim": "Thin, one clause only: ill-formed programs are rejected with an error instead of panicking, for the checks within reach. Every program decoder returns Ok only when each instruction passes check_arity; the arity table admits only input counts that cover every index the off-circuit and in-circuit parsers use and output counts equal to the number of values they produce; Arity::check is the documented predicate (full usize domain); IntoBytes(n) evaluates its length checks without panicking for every n (off-circuit Native branch, in-circuit BigUint tail); off-circuit ModExp guards the zero modulus. The agreement between off-circuit evaluation and the compiled circuit -- the core of C18 -- is NOT decided.",
+    "claim": "Thin, one clause only: ill-formed programs are rejected with an error instead of panicking, for the checks within reach. Every program decoder returns Ok only when each instruction passes check_arity; the arity table admits only input counts that cover every index the off-circuit and in-circuit parsers use and output counts equal to the number of values they produce; Arity::check is the documented predicate (full usize domain); IntoBytes(n) evaluates its length checks without panicking for every n (off-circuit Native branch, in-circuit BigUint tail); off-circuit ModExp guards the zero modulus; the in-circuit ModExp schedule returns the reduced power for every exponent, as the off-circuit modpow does (body slice of BigUintGadget::mod_exp over an abstract domain). The agreement between off-circuit evaluation and the compiled circuit -- the core of C18 -- is NOT decided.",
     "level_note": "Same units as the IR part of C16 (obligations tagged with both properties): PolyVC routing / table obligations, Kani slices. Trusted: the extraction scanner, PolyVC, Kani+CBMC; callee contracts of bincode / serde_json / check_arity atoms assumed.",
     "technique": "PolyVC Result-routing and table-consistency obligations + Kani contracts on sub-expression slices (contract-based deductive verification)",
     "design_ref": "DESIGN.md section 9.4 (fixes 12-14) and 9.2",
